@@ -35,10 +35,22 @@ def decorate(text, rnd):
             ck['description'] = rnd.choice(NASTY)
         if rnd.random() < 0.5:
             ck['uuid'] = '%08x-%04x-%04x-%04x-%012x' % (rnd.getrandbits(32), rnd.getrandbits(16), rnd.getrandbits(16), rnd.getrandbits(16), rnd.getrandbits(48))
-        ck['frequency'] = rnd.choice([1, 1000, 10 ** 9, 2 ** 40])
-        ck['precision'] = rnd.choice([0, 1, 999])
-        ck['offset'] = {'seconds': rnd.choice([0, 1, 1600000000]), 'cycles': rnd.choice([0, 5, 10 ** 9])}
-        ck['origin-is-unix-epoch'] = rnd.random() < 0.5
+        # every property is optional: an omitted one must be stated with its documented default
+        if rnd.random() < 0.7:
+            ck['frequency'] = rnd.choice([1, 1000, 10 ** 9, 2 ** 40])
+        elif 'frequency' in ck and rnd.random() < 0.5:
+            del ck['frequency']
+        if rnd.random() < 0.6:
+            ck['precision'] = rnd.choice([0, 1, 999])
+        if rnd.random() < 0.6:
+            off = {}
+            if rnd.random() < 0.7:
+                off['seconds'] = rnd.choice([0, 1, 1600000000])
+            if rnd.random() < 0.7:
+                off['cycles'] = rnd.choice([0, 5, 10 ** 9])
+            ck['offset'] = off
+        if rnd.random() < 0.6:
+            ck['origin-is-unix-epoch'] = rnd.random() < 0.5
     for dn, d in tt['data-stream-types'].items():
         for en, e in d['event-record-types'].items():
             e['log-level'] = rnd.choice([0, 0, 1, 7, 14, 'warning', None])
@@ -170,6 +182,23 @@ def oracle(cfg, md_text, yaml_text=None):
         if env.get(k) != v:
             fails.append(f'environment entry {k}: configured {v!r}, metadata {env.get(k)!r}')
     clocks = {c['name'][1] if isinstance(c['name'], tuple) else c['name']: c for c in md['clocks']}
+    # clock type attributes as the document states them, with the defaults of docs/modules/yaml/pages/clk-type-obj.adoc
+    if yaml_text is not None:
+        ydoc = yaml.safe_load(yaml_text.split('\n', 1)[1])
+        for name, yck in ((ydoc['trace']['type'].get('clock-types')) or {}).items():
+            m = clocks.get(name)
+            if m is None:
+                continue          # unused clock types are not emitted (checked below for the used ones)
+            yck = yck or {}
+            off = yck.get('offset') or {}
+            want = {'freq': yck.get('frequency', 10 ** 9), 'precision': yck.get('precision', 0),
+                    'offset_s': off.get('seconds', 0), 'offset': off.get('cycles', 0),
+                    'absolute': ('id', 'true' if yck.get('origin-is-unix-epoch', True) else 'false'),
+                    'uuid': yck.get('uuid'), 'description': yck.get('description') or None}
+            for k, v in want.items():
+                got = (m.get(k) or None) if k == 'description' else m.get(k)
+                if got != v:
+                    fails.append(f'clock type {name}: {k} stated by the document (or its documented default) {v!r}, metadata {m.get(k)!r}')
     for ck in tt.clock_types:
         m = clocks.get(ck.name)
         if m is None:
